@@ -180,7 +180,54 @@ Print Assumptions C29_conflict_iff_boundary.
 
 Theorem C29_oracle_on_model :
   forall i,
+  i_cls i = [] ->
   (forall k, in_scope (i_sb i) (i_sl i) (i_sr i) (get k (i_b i)) (get k (i_l i)) (get k (i_r i)) = true) ->
   oracle i (model_obs i) = true.
 Proof. exact oracle_on_model. Qed.
 Print Assumptions C29_oracle_on_model.
+
+(* ---- round 3: value class vs. stored bytes ---- *)
+Theorem C29_merge_total_g :
+  forall cls sb sl sr b l r, m_err (table_merge_g cls true sb sl sr b l r) = false.
+Proof. exact merge_total_g. Qed.
+Print Assumptions C29_merge_total_g.
+
+Theorem C29_merge_swap_g :
+  forall cls sb sl sr b l r k,
+  schemas_ok sb sl sr -> conv_ok sl sr (get k l) (get k r) ->
+  let M1 := table_merge_g cls true sb sl sr b l r in
+  let M2 := table_merge_g cls true sb sr sl b r l in
+  match getc k (m_conf M1), getc k (m_conf M2) with
+  | None, None =>
+      same_data (merged_schema sb sl sr) (get k (m_rows M1)) (merged_schema sb sr sl) (get k (m_rows M2))
+  | Some (b1, o1, t1), Some (b2, o2, t2) =>
+      b1 = b2 /\ t1 = get k r /\ t2 = get k l
+      /\ o1 = option_map (remap (merged_schema sb sl sr) sl) (get k l)
+      /\ o2 = option_map (remap (merged_schema sb sr sl) sr) (get k r)
+  | _, _ => False
+  end.
+Proof. exact merge_swap_g. Qed.
+Print Assumptions C29_merge_swap_g.
+
+Theorem C29_value_only_model_is_identity_instance :
+  forall fixed sb sl sr b l r,
+  table_merge_g (fun x => x) fixed sb sl sr b l r = table_merge fixed sb sl sr b l r.
+Proof. exact table_merge_g_id. Qed.
+Print Assumptions C29_value_only_model_is_identity_instance.
+
+Theorem C29_table_merge_get_g :
+  forall cls fixed sb sl sr b l r k,
+  get k (m_rows (table_merge_g cls fixed sb sl sr b l r))
+  = match merge_key_g cls fixed sb sl sr b l r k with ROk v _ => v | RErr => None end.
+Proof. exact table_merge_get_g. Qed.
+Print Assumptions C29_table_merge_get_g.
+
+Theorem C29_conflicts_exact_g :
+  forall cls fixed sb sl sr b l r k,
+  getc k (m_conf (table_merge_g cls fixed sb sl sr b l r))
+  = match merge_key_g cls fixed sb sl sr b l r k with
+    | ROk v true => Some (get k b, v, get k r)
+    | _ => None
+    end.
+Proof. exact conflicts_exact_g. Qed.
+Print Assumptions C29_conflicts_exact_g.
